@@ -406,6 +406,21 @@ class SelectedMailbox:
             if msg_sflags != updated_sflags:
                 self._silenced_sflags.add((msg.uid, updated_sflags))
 
+    def told(self, uid: int, permanent_flags: frozenset[Flag]) -> None:
+        """The response of the command in progress itself reports these
+        flags for the message, e.g. the FETCH responses of a STORE. If they
+        are not the flags found once the command is done, because another
+        session changed them in between, that must be reported as well.
+
+        Args:
+            uid: The message UID.
+            permanent_flags: The permanent flags reported for the message.
+
+        """
+        self._silenced_flags = {(told_uid, flags) for told_uid, flags
+                                in self._silenced_flags if told_uid != uid}
+        self._silenced_flags.add((uid, permanent_flags))
+
     def fork(self, command: Command) \
             -> tuple[SelectedMailbox, Iterable[UntaggedResponse]]:
         """Compares the state of the current object to that of the last fork,
@@ -447,8 +462,16 @@ class SelectedMailbox:
         if len(after.recent) != len(before.recent):
             yield RecentResponse(len(after.recent))
         new_recent = (after.recent - before.recent)
-        new_flags = (after.flags - before.flags - self._silenced_flags)
-        new_sflags = (after.sflags - before.sflags - self._silenced_sflags)
+        # what the client holds is what it was told or, after .SILENT, has
+        # to assume: where there is either, the flags before do not matter
+        told_uids = {uid for uid, _ in self._silenced_flags}
+        told_suids = {uid for uid, _ in self._silenced_sflags}
+        new_flags = (after.flags - self._silenced_flags
+                     - {(uid, flags) for uid, flags in before.flags
+                        if uid not in told_uids})
+        new_sflags = (after.sflags - self._silenced_sflags
+                      - {(uid, flags) for uid, flags in before.sflags
+                         if uid not in told_suids})
         fetch_uids = chain(new_recent,
                            (uid for uid, _ in new_flags),
                            (uid for uid, _ in new_sflags))
